@@ -31,8 +31,16 @@ pub enum Point {
         peer: String,
     },
 
-    /// Top of one iteration of the dispatch loop in `Accept::accept_one`.
-    AcceptOneIter,
+    /// Top of one iteration of the dispatch loop in `Accept::accept_one`, with the accept loop's
+    /// own view of the rotation at that instant.
+    AcceptOneIter {
+        /// worker indices of the handles, in rotation order
+        handles: Vec<usize>,
+        /// the accept loop's availability bit of each of those handles
+        avail: Vec<bool>,
+        /// rotation cursor (position in `handles`)
+        next: usize,
+    },
 
     /// A connection was sent to the worker with this index; its counter has not been incremented
     /// yet (the window in which the worker thread may already make progress).
